@@ -205,10 +205,33 @@ def _build_adaptive(layout):
     return model
 
 
+class InputsAltered(Exception):
+    pass
+
+
+def _inputs_checked(fn):
+    import functools
+
+    @functools.wraps(fn)
+    def wrapper(case):
+        try:
+            return fn(case)
+        except InputsAltered as e:
+            return bad('C12:adaptive:add_data-alters-the-summaries-it-was-given', dict(e.args[0], witness_case=case))
+    return wrapper
+
+
 def _add(model, layout, dt, rows):
     """One add_data call through a fresh node reference (as the samplers do)."""
     m = R.n_cols(layout)
-    model['d'].add_data(*R.split_columns(layout, [r[:m] for r in rows], dt))
+    args = R.split_columns(layout, [r[:m] for r in rows], dt)
+    before = [a.copy() for a in args]
+    model['d'].add_data(*args)
+    # the arrays handed over are the batch's summary outputs (the sampler stores them afterwards and recomputes every
+    # distance from them): the node reads them, it does not own them
+    for a, b in zip(args, before):
+        if not np.array_equal(a, b):
+            raise InputsAltered({'given': b.tolist(), 'left_as': a.tolist(), 'dtype': str(b.dtype), 'shape': list(b.shape)})
 
 
 def _scale_ok(model, m, ref):
@@ -290,6 +313,7 @@ def _build_adaptive_scaled(layout, f):
 
 
 @guarded('C12')
+@_inputs_checked
 def run_scaled(case):
     """Summaries, observation and test batches multiplied by a binary-exact factor: the adapted scale is multiplied by
     the factor and the distances are unchanged (an absolute tolerance anywhere in the adaptation breaks this)."""
@@ -359,6 +383,7 @@ def _pre(model, layout, dt, pre):
 
 
 @guarded('C12')
+@_inputs_checked
 def run_partition(case):
     layout, dt, pre = case['layout'], _dtype(case['dtype']), case['pre']
     m = R.n_cols(layout)
@@ -560,6 +585,7 @@ def _transition(conf, hist, op, before):
 
 
 @guarded('C12')
+@_inputs_checked
 def run_rounds(case):
     conf = (case['layout'], case['dtype'])
     layout, dt = case['layout'], _dtype(case['dtype'])
@@ -598,6 +624,7 @@ def run_rounds(case):
 
 
 @guarded('C12')
+@_inputs_checked
 def run_seqs(case):
     """All operation sequences of length 1..depth starting with option `first`, no state merging."""
     conf = (case['layout'], case['dtype'])
@@ -691,21 +718,34 @@ def _reference_batches(model, names, bs, seed, n_batches):
 
 
 @guarded('C12')
+@_inputs_checked
 def run_sampler(case):
     import elfi
     models.native_client()
     models.reset_calls()
-    m, dname, extras = models.build('Madapt')
+    mk = case.get('model', 'Madapt')
+    m, dname, extras = models.build(mk)
     obs = np.array([2.0, 10.0])
     bs, n, seed = case['bs'], case['n_samples'], case['seed']
+
+    def _S(outputs):
+        if mk == 'MadaptV':
+            return np.asarray(outputs['SV'], dtype=float).reshape(-1, 2)
+        return np.column_stack([outputs['S1'], outputs['S2']])
     if case['method'] == 'rejection':
         rej = elfi.Rejection(m, dname, output_names=list(extras), batch_size=bs, seed=seed, max_parallel_batches=1)
         res = rej.sample(n, bar=False, n_sim=int(case['n_sim']))
         calls = models.CALLS.get('sim', 0)
-        m2, _, _ = models.build('Madapt')
-        ref = _reference_batches(m2, ['S1', 'S2'], bs, seed, calls)
-        scale = np.std(np.column_stack([ref['S1'], ref['S2']]), axis=0)
-        S = np.column_stack([res.outputs['S1'], res.outputs['S2']])
+        m2, _, _ = models.build(mk)
+        ref = _reference_batches(m2, list(extras), bs, seed, calls)
+        allS = _S(ref)
+        scale = np.std(allS, axis=0)
+        S = _S(res.outputs)
+        # the returned summaries are summaries that were simulated (rows of a fresh computation of the consumed batches)
+        simulated = {tuple(r) for r in allS.tolist()}
+        if any(tuple(r) not in simulated for r in S.tolist()):
+            return bad('C12:sampler:returned-summaries-were-never-simulated',
+                       {'returned': S.tolist()[:4], 'model': mk})
         exp = R.scaled_euclid(S.tolist(), obs, scale)
         d = np.atleast_2d(np.transpose(np.asarray(res.outputs[dname])))[-1]
         if d.shape != exp.shape or not np.allclose(d, exp, rtol=1e-9, atol=1e-12):
@@ -723,7 +763,7 @@ def run_sampler(case):
         return bad('C12:sampler:smc-number-of-distances', {'len_w': len(ws), 'rounds': case['rounds']})
     ds = []
     for i, pop in enumerate(res.populations):
-        S = np.column_stack([pop.outputs['S1'], pop.outputs['S2']])
+        S = _S(pop.outputs)
         w = np.asarray(pop.adaptive_distance_w, dtype=float)
         exp = R.scaled_euclid(S.tolist(), obs, 1 / w)
         d = np.atleast_2d(np.transpose(np.asarray(pop.outputs[dname])))[-1]
@@ -798,6 +838,8 @@ def run(ctx):
                  for bs in (1, 2, 3) for n in (2, 5) for ns in (6, 10) for s in seeds if ns >= n]
         cases += [{'kind': 'sampler', 'method': 'smc', 'bs': bs, 'n_samples': n, 'rounds': r, 'seed': s}
                   for bs in (1, 3) for n in (3, 5) for r in (1, 2, 3) for s in seeds]
+        # the same with ONE vector-valued summary (the stacked summaries are then the batch's own output array)
+        cases += [dict(c, model='MadaptV') for c in cases]
         ctx.run_cases(run_sampler, cases, 'sampler')
 
     ctx.rule = (
